@@ -88,6 +88,7 @@ type state struct {
 	onFileOp func(file *File, op string)
 	tmpSeq   int
 	onLock   func(ev LockEvent)
+	firedAt  []string
 }
 
 var st = newState()
@@ -209,6 +210,13 @@ func Counters() (ops, fired map[string]int64) {
 	return
 }
 
+// FiredAt lists "<op> <path>" for every fault that fired since Reset, in order.
+func FiredAt() []string {
+	st.mu.Lock()
+	defer st.mu.Unlock()
+	return append([]string(nil), st.firedAt...)
+}
+
 // Created lists every path created through this package since Reset, sorted.
 func Created() []string {
 	st.mu.Lock()
@@ -300,6 +308,16 @@ func errnoOf(s string) error {
 		return syscall.EACCES
 	case "EDQUOT":
 		return syscall.EDQUOT
+	case "EPERM":
+		return syscall.EPERM
+	case "EBUSY":
+		return syscall.EBUSY
+	case "ENOSYS":
+		return syscall.ENOSYS
+	case "ENOTSUP":
+		return syscall.ENOTSUP
+	case "EFBIG":
+		return syscall.EFBIG
 	}
 	return syscall.EIO
 }
@@ -369,6 +387,7 @@ func Enter(op, path string) (decision, error) {
 	if hit != nil {
 		st.fired[hit.Action+":"+op]++
 		st.fired["kind:"+hit.Action]++
+		st.firedAt = append(st.firedAt, op+" "+clean(path))
 	}
 	st.mu.Unlock()
 	if cb != nil {
@@ -654,7 +673,29 @@ func ReadDir(name string) ([]fs.DirEntry, error) {
 	if d.fail != nil {
 		return nil, d.fail
 	}
-	return os.ReadDir(name)
+	es, err := os.ReadDir(name)
+	return wrapEntries(name, es), err
+}
+
+// dirEntry makes Info report the shadow mtime.
+type dirEntry struct {
+	fs.DirEntry
+	path string
+}
+
+func (e dirEntry) Info() (fs.FileInfo, error) {
+	fi, err := e.DirEntry.Info()
+	if err != nil {
+		return nil, err
+	}
+	return wrapInfo(e.path, fi), nil
+}
+
+func wrapEntries(dir string, es []fs.DirEntry) []fs.DirEntry {
+	for i, e := range es {
+		es[i] = dirEntry{e, filepath.Join(dir, e.Name())}
+	}
+	return es
 }
 
 func WriteFile(name string, data []byte, perm fs.FileMode) error {
@@ -953,7 +994,25 @@ func (f *File) ReadDir(n int) ([]fs.DirEntry, error) {
 	}
 	es, err := f.f.ReadDir(n)
 	sort.Slice(es, func(i, j int) bool { return es[i].Name() < es[j].Name() })
-	return es, err
+	return wrapEntries(f.name, es), err
+}
+
+// Readdir is ReadDir with the FileInfo of each entry, carrying the shadow
+// mtime as it stands at the time of the listing.
+func (f *File) Readdir(n int) ([]fs.FileInfo, error) {
+	d, err := Enter("readdir", f.name)
+	if err != nil {
+		return nil, err
+	}
+	if d.fail != nil {
+		return nil, d.fail
+	}
+	fis, err := f.f.Readdir(n)
+	sort.Slice(fis, func(i, j int) bool { return fis[i].Name() < fis[j].Name() })
+	for i, fi := range fis {
+		fis[i] = wrapInfo(filepath.Join(f.name, fi.Name()), fi)
+	}
+	return fis, err
 }
 
 // Real exposes the underlying file to harness code.
